@@ -180,7 +180,7 @@ def run_property(pid, tier, seed, module_name=None, post=None):
     extra_cov = {}
     if post is not None:
         try:
-            pv, pmsgs, extra_cov = post()
+            pv, pmsgs, extra_cov = post(total) if post.__code__.co_argcount else post()
             all_viol += pv; inconclusive += pmsgs
         except Exception as e:
             inconclusive.append('post stage failed: ' + ''.join(traceback.format_exception(type(e), e, e.__traceback__))[-800:])
